@@ -13,7 +13,7 @@ from .decsnap import full_snapshot, impl_queries, impl_tables, impl_tables_publi
 
 def gen_c08(rng):
     """Decay, CopyDecay, CDecay, ModelAlias, Define on an acyclic set of tables at least three levels deep"""
-    doc, info = gen.gen_tables(rng, n_dec=rng.choice([3, 4, 5, 6]), aliases=False, max_lines=3, max_ds=3, depth_bias=0.7)
+    doc, info = gen.gen_tables(rng, n_dec=rng.choice([3, 4, 5, 6]), aliases=False, max_lines=3, max_ds=3, depth_bias=0.7, copies=False)
     dec = info["dec"]
     defined = ["dm", "x1"]
     doc.insert(rng.randint(0, len(doc)), ["define", "dm", "0.5"])
@@ -36,6 +36,8 @@ def gen_c08(rng):
             if rng.random() < 0.7:
                 doc.append(["chargeconj", new, f"anti-Copy{k}"])
                 doc.append(["cdecay", f"anti-Copy{k}"])
+                if rng.random() < 0.3:
+                    doc.append(["cdecay", f"anti-Copy{k}"])   # the same statement again: two derived tables, independent of each other
         m = rng.choice(dec)
         doc.append(["chargeconj", m, "Conj_" + m])
         doc.append(["cdecay", "Conj_" + m])
